@@ -1,2 +1,48 @@
-"""C06 - hash map of the files considered by a reindex (no edit is missed: the map is keyed by every path given)."""
-from engine.spec import T, contract, forall, implies
+"""C06 - the hash map a reindex compares against: no page considered is missed and each entry is the hash of that page's
+current content (contracts over the file-system model; `_hash_file` and `strip_zdir` through assumed contracts)."""
+import os
+
+from engine.spec import T, contract, fs_read, opaque
+from contracts import c16  # noqa: F401  (assumed contract of strip_zdir: result is relative(zdir, path))
+from contracts.c16 import relative  # noqa: F401
+
+NP = 3 if os.environ.get("VERIF_TIER") != "thorough" else 4
+PATH = T.rec("Path", {"s": T.str()})
+H = "zorg.service.handlers:"
+
+
+@opaque("str", always=True)
+def sha256_of(content):
+    """A-SHA: the digest is a function of the content (collisions are an explicit assumption of the C06 plan)"""
+    import hashlib
+
+    return hashlib.sha256(content.encode()).hexdigest()
+
+
+contract(H + "_hash_file", props=["C06"], assumed=True, args={"filepath": PATH, "chunk_size": T.int()},
+         requires={"the-file-exists": "fs_exists(filepath)"},
+         result_is="sha256_of(fs_read(filepath))",
+         note="ASSUMED: chunked binary read + hashlib; the digest is a function of the file's content")
+
+
+def last_with_key(zdir, paths, k):
+    """index of the last path whose relative name is k, or -1"""
+    r = -1
+    for i in range(len(paths)):
+        if relative(zdir, paths[i]) == k:
+            r = i
+    return r
+
+
+contract(
+    H + "_get_file_hash_map", props=["C06"], args={"zdir": PATH, "paths": T.clist(PATH, 0, NP)}, returns=T.map(T.str(), T.str()),
+    list_bound=NP, bounded_note=f"bounded-symbolic: at most {NP} explicit paths; directory, paths and file contents fully symbolic",
+    requires={"the-files-exist": "all(fs_exists(p) for p in paths)"},
+    frame=True,
+    ensures={
+        "no-path-is-missed": "all(relative(zdir, p) in result for p in paths)",
+        "entry-is-the-hash-of-the-current-content": "all(result[relative(zdir, paths[i])] == sha256_of(fs_read(paths[last_with_key(zdir, paths, relative(zdir, paths[i]))])) for i in range(len(paths)))",
+        "nothing-else-is-listed": "forall_str(lambda k: implies(k in result, any(relative(zdir, p) == k for p in paths)))",
+        "file-system-untouched": "fs_unchanged()",
+    },
+)
